@@ -80,7 +80,11 @@ fn gen_set(seed: u64, idx: u64) -> (SampleSet, bool, Vec<String>, Value) {
     // (>= 2 packs per delta stream), so that ONE getset invocation crosses pack boundaries
     let many = idx % 5 == 4;
     let o = if many {
-        GenOpts { n_samples: rng.range(55, 60) as usize, n_contigs: 1, len_lo: 300, len_hi: 600, div_per_mille: 30, structural: false, short_contigs: false, descriptions: false, ..o }
+        // > 50 DISTINCT NON-EMPTY deltas are needed in one group: an empty delta takes id 0 and equal
+        // deltas inside a pending pack share an id, hence clearly more than 50 samples, every one
+        // diverged in (nearly) every segment
+        GenOpts { n_samples: rng.range(100, 110) as usize, n_contigs: 1, len_lo: 600, len_hi: 900, div_per_mille: 15, structural: false, short_contigs: false, descriptions: false,
+            k: 11, ..o }
     } else {
         o
     };
@@ -101,7 +105,8 @@ fn gen_set(seed: u64, idx: u64) -> (SampleSet, bool, Vec<String>, Value) {
             s.name = new;
         }
     }
-    let s_size = if many { 60 } else { *rng.pick(&[60usize, 200, 1000, 60000]) };
+    let k = o.k;
+    let s_size = if many { 150 } else { *rng.pick(&[60usize, 200, 1000, 60000]) };
     let threads = *rng.pick(&[1usize, 2, 4]);
     let args = vec![
         "-k".to_string(),
@@ -371,6 +376,21 @@ fn prepare(env: &Env, rep: &mut Report, workdir: &str, idx: u64) -> Option<ArchC
     }
     let marc = if parts.is_empty() { "@".to_string() } else { parts.join("|") };
     rep.count("archives_prepared");
+    // does ONE getset invocation have to cross a delta-pack boundary in this archive?
+    {
+        let mut a = ragc_common::Archive::new_reader();
+        if a.open(&archive).is_ok() {
+            let multi = (0..a.get_num_streams())
+                .filter(|&sid| {
+                    let n = a.get_stream_name(sid).unwrap_or("");
+                    n.starts_with('x') && n.ends_with('d') && a.get_num_parts(sid) >= 2
+                })
+                .count();
+            if multi > 0 {
+                rep.count("archive_with_multi_pack_delta_stream");
+            }
+        }
+    }
     Some(ArchCase { idx, desc, dir, archive, marc, names, single: vec![] })
 }
 
@@ -1098,5 +1118,8 @@ pub fn run(ctx: &mut Ctx) -> Report {
             capacity_stream(&env, m, r, &workdir, n_cap, None);
         }
     });
+    if rep.counters.get("archive_with_multi_pack_delta_stream").copied().unwrap_or(0) == 0 {
+        rep.notes.push("generator gap: no archive of this run has a delta stream with >= 2 packs; a getset crossing a pack boundary was not exercised".into());
+    }
     rep
 }
